@@ -11,4 +11,5 @@ INVARIANT AllAdvertised
 INVARIANT GlobalsResolve
 INVARIANT LocalsResolve
 INVARIANT ChainsResolve
+INVARIANT ReflectiveResolve
 CHECK_DEADLOCK FALSE
